@@ -443,7 +443,74 @@ def gamma_peak_density(repo, rep):
         raise AnalysisError("gamma: ratio of peak density to PM peak density not found (formulation changed)")
 
 
+def alpha_window_keeps_bin(repo, rep):
+    """R-C02-10: alpha is evaluated 'at that same peak': its tail-fit window is (1.35 fp, 2 fp).  When that window holds exactly ONE frequency
+    bin the replacement pair must contain that bin (with a neighbour); replacing it by bins elsewhere on the grid fits the tail of another
+    part of the spectrum."""
+    rep.rule("R-C02-10", "alpha: a tail window holding exactly one frequency is widened to a pair that still contains that frequency")
+    fi = repo.func("wavespectra.core.npstats.alpha")
+    pos = None
+    for n in ast.walk(fi.node):
+        if isinstance(n, ast.Assign) and isinstance(n.targets[0], ast.Name) and isinstance(n.value, ast.Subscript) and \
+                isinstance(n.value.value, ast.Call) and ast.unparse(n.value.value.func) in ("np.where", "np.nonzero", "numpy.where"):
+            pos = n.targets[0].id
+    if pos is None:
+        raise AnalysisError("npstats.alpha: tail-window index selection (np.where(...)[0]) not found")
+    from ..astutil import path_conditions
+
+    def size_truth(t, size):
+        # True / False when the test is decided by the window size, None otherwise
+        if isinstance(t, ast.Compare) and len(t.ops) == 1:
+            l = ast.unparse(t.left).replace(" ", "")
+            r = repo.const(fi.module, t.comparators[0])
+            l2 = ast.unparse(t.comparators[0]).replace(" ", "")
+            lv = repo.const(fi.module, t.left)
+            if l in (f"{pos}.size", f"len({pos})") and isinstance(r, int):
+                a, b = size, r
+            elif l2 in (f"{pos}.size", f"len({pos})") and isinstance(lv, int):
+                a, b = lv, size
+            else:
+                return None
+            return {ast.Eq: a == b, ast.NotEq: a != b, ast.Lt: a < b, ast.LtE: a <= b, ast.Gt: a > b, ast.GtE: a >= b}.get(type(t.ops[0]))
+        if isinstance(t, ast.UnaryOp) and isinstance(t.op, ast.Not):
+            v = size_truth(t.operand, size)
+            return None if v is None else not v
+        if ast.unparse(t).replace(" ", "") in (f"{pos}.size", f"len({pos})"):
+            return size != 0
+        return None
+    n = 0
+    for st in ast.walk(fi.node):
+        if isinstance(st, ast.Assign) and isinstance(st.targets[0], ast.Name) and st.targets[0].id == pos and isinstance(st.value, (ast.List, ast.Tuple)):
+            pcs = path_conditions(fi.node, st)
+            reach1 = all((size_truth(t, 1) in (None, truth)) for t, truth in pcs)
+            if not reach1:
+                continue
+            n += 1
+            names_local = {}
+            for a in ast.walk(fi.node):
+                if isinstance(a, ast.Assign) and isinstance(a.targets[0], ast.Name):
+                    names_local.setdefault(a.targets[0].id, []).append(a.value)
+
+            def from_pos(e, depth=0):
+                if any(isinstance(x, ast.Subscript) and isinstance(x.value, ast.Name) and x.value.id == pos for x in ast.walk(e)):
+                    return True
+                if depth < 3:
+                    for x in ast.walk(e):
+                        if isinstance(x, ast.Name) and x.id != pos and any(from_pos(v, depth + 1) for v in names_local.get(x.id, [])):
+                            return True
+                return False
+            if any(from_pos(el) for el in st.value.elts):
+                rep.ok("R-C02-10", f"{fi.file}:{st.lineno} alpha", ast.unparse(st), "the single selected bin stays in the pair")
+            else:
+                rep.fail("R-C02-10", fi.file, st.lineno, fi.qualname, ast.unparse(st),
+                         "this replacement is reached when the tail window holds exactly one frequency bin, but the pair it builds does not contain that "
+                         "bin: alpha is then fitted on bins elsewhere on the grid (the last two), not at the peak's own tail")
+    if n == 0:
+        rep.fail("R-C02-10", fi.file, fi.node.lineno, fi.qualname, "tail window with exactly one frequency", "no replacement pair is built for a window holding one frequency")
+
+
 def run(repo, rep, tier):
+    alpha_window_keeps_bin(repo, rep)
     rep.rule("R-C02-9", "(shared with C10) no peak parameter is masked by comparing an energy-dependent quantity with an absolute constant: a clear peak of a "
                         "low-energy spectrum is still a peak")
     from ..spectyping import Typing as _Typing
